@@ -166,6 +166,21 @@ mod derived {
 		fn abs(&self) -> Value { json!([digits(self.0 as u128, 8)]) }
 	}
 
+	/// zero-sized field with a non-empty encoding inside a transparent struct
+	#[derive(Encode, Decode, DecodeWithMemTracking, Debug, PartialEq, Clone, Copy)]
+	pub enum EV1 { V1 }
+	#[derive(Encode, Decode, DecodeWithMemTracking, Debug, PartialEq, Clone, Copy)]
+	#[repr(transparent)]
+	pub struct STranspZ { pub payload: [u8; 4], pub version: EV1 }
+	impl Reg for STranspZ {
+		fn name() -> String { "STranspZ".into() }
+		fn descr() -> Value {
+			tuple_descr(vec![<[u8; 4]>::descr(), json!({"k":"enum","sz":0,"vs":[{"i":0,"ts":[]}]})], size_of::<Self>())
+		}
+		fn gen(g: &mut G) -> Self { STranspZ { payload: <[u8; 4]>::gen(g), version: EV1::V1 } }
+		fn abs(&self) -> Value { json!([self.payload.abs(), {"i":1,"fs":[]}]) }
+	}
+
 	#[derive(Encode, Decode, DecodeWithMemTracking, Debug, PartialEq, Clone)]
 	#[repr(transparent)]
 	pub struct STranspBig(pub [u64; 100]);
@@ -201,6 +216,60 @@ mod derived {
 		}
 		fn gen(g: &mut G) -> Self { g.nested(|g| SHasCompact { x: CA::gen(g), y: Option::gen(g) }) }
 		fn abs(&self) -> Value { json!([digits(self.x .0 as u128, 4), self.y.abs()]) }
+	}
+
+	/// generic compact field + MaxEncodedLen
+	#[cfg(feature = "max-encoded-len")]
+	pub trait MelBound: MaxEncodedLen {}
+	#[cfg(feature = "max-encoded-len")]
+	impl<T: MaxEncodedLen> MelBound for T {}
+	#[cfg(not(feature = "max-encoded-len"))]
+	pub trait MelBound {}
+	#[cfg(not(feature = "max-encoded-len"))]
+	impl<T> MelBound for T {}
+	#[derive(Encode, Decode, DecodeWithMemTracking, Debug, PartialEq, Clone, Copy)]
+	#[cfg_attr(feature = "max-encoded-len", derive(MaxEncodedLen))]
+	pub struct SMelGeneric<T: parity_scale_codec::HasCompact + MelBound> { #[codec(compact)] pub a: T, pub b: u8 }
+	macro_rules! smelgeneric { ($($t:ty, $w:expr);*) => {$(
+		impl Reg for SMelGeneric<$t> {
+			fn name() -> String { format!("SMelGeneric<{}>", stringify!($t)) }
+			fn descr() -> Value { tuple_descr(vec![Compact::<$t>::descr(), u8::descr()], size_of::<Self>()) }
+			fn gen(g: &mut G) -> Self { SMelGeneric { a: <$t>::gen(g), b: u8::gen(g) } }
+			fn abs(&self) -> Value { json!([digits(self.a as u128, $w), self.b.abs()]) }
+		}
+	)*} }
+	smelgeneric!(u32, 4; u64, 8);
+
+	/// compact field of a CompactAs type + MaxEncodedLen
+	#[derive(Encode, Decode, DecodeWithMemTracking, Debug, PartialEq, Clone, Copy)]
+	#[cfg_attr(feature = "max-encoded-len", derive(MaxEncodedLen))]
+	pub struct SMelCA { #[codec(compact)] pub a: CA, pub b: Option<u8> }
+	impl Reg for SMelCA {
+		fn name() -> String { "SMelCA".into() }
+		fn descr() -> Value { tuple_descr(vec![Compact::<u32>::descr(), Option::<u8>::descr()], size_of::<Self>()) }
+		fn gen(g: &mut G) -> Self { SMelCA { a: CA::gen(g), b: Option::gen(g) } }
+		fn abs(&self) -> Value { json!([digits(self.a .0 as u128, 4), self.b.abs()]) }
+	}
+
+	#[derive(Encode, Decode, DecodeWithMemTracking, Debug, PartialEq, Clone, Copy)]
+	#[cfg_attr(feature = "max-encoded-len", derive(MaxEncodedLen))]
+	pub enum EMelCompact { A(#[codec(compact)] u128), B { #[codec(encoded_as = "Compact<u64>")] x: u64, y: u8 }, #[codec(skip)] C([u8; 64]) }
+	impl Reg for EMelCompact {
+		fn name() -> String { "EMelCompact".into() }
+		fn descr() -> Value {
+			json!({"k":"enum","sz":size_of::<Self>(),"vs":[
+				variant(0, vec![Compact::<u128>::descr()]), variant(1, vec![Compact::<u64>::descr(), u8::descr()])]})
+		}
+		fn gen(g: &mut G) -> Self {
+			if g.chance(1, 2) { EMelCompact::A(u128::gen(g)) } else { EMelCompact::B { x: u64::gen(g), y: u8::gen(g) } }
+		}
+		fn abs(&self) -> Value {
+			match self {
+				EMelCompact::A(a) => json!({"i":1,"fs":[digits(*a, 16)]}),
+				EMelCompact::B { x, y } => json!({"i":2,"fs":[digits(*x as u128, 8), y.abs()]}),
+				EMelCompact::C(_) => json!({"i":0,"fs":[]}),
+			}
+		}
 	}
 
 	fn variant(i: u8, ts: Vec<Value>) -> Value { json!({"i": i, "ts": ts}) }
